@@ -73,25 +73,22 @@ fn bits_sink(r: Result<BitIterator, RequestError>) {
             OK.store(true, Relaxed);
             let probe = PROBE.load(Relaxed);
             let mut k: u16 = 0;
-            let mut prev: Option<u16> = None;
+            // a symbolic probe position records one arbitrary item: checking it checks every item
+            let mut hit = false;
+            let mut pi = 0u16;
+            let mut pv = 0u16;
             for item in it {
-                if let Some(p) = prev {
-                    if item.index != p.wrapping_add(1) {
-                        SEQ_OK.store(false, Relaxed);
-                    }
-                }
-                prev = Some(item.index);
-                if k == 0 {
-                    V_INDEX.store(item.index, Relaxed);
-                }
                 if k == probe {
-                    PROBE_HIT.store(true, Relaxed);
-                    PROBE_INDEX.store(item.index, Relaxed);
-                    PROBE_VALUE.store(item.value as u16, Relaxed);
+                    hit = true;
+                    pi = item.index;
+                    pv = item.value as u16;
                 }
                 k = k.wrapping_add(1);
-                ITEMS.fetch_add(1, Relaxed);
             }
+            ITEMS.store(k as u32, Relaxed);
+            PROBE_HIT.store(hit, Relaxed);
+            PROBE_INDEX.store(pi, Relaxed);
+            PROBE_VALUE.store(pv, Relaxed);
         }
         Err(e) => record_err(e),
     }
@@ -104,25 +101,22 @@ fn regs_sink(r: Result<RegisterIterator, RequestError>) {
             OK.store(true, Relaxed);
             let probe = PROBE.load(Relaxed);
             let mut k: u16 = 0;
-            let mut prev: Option<u16> = None;
+            // a symbolic probe position records one arbitrary item: checking it checks every item
+            let mut hit = false;
+            let mut pi = 0u16;
+            let mut pv = 0u16;
             for item in it {
-                if let Some(p) = prev {
-                    if item.index != p.wrapping_add(1) {
-                        SEQ_OK.store(false, Relaxed);
-                    }
-                }
-                prev = Some(item.index);
-                if k == 0 {
-                    V_INDEX.store(item.index, Relaxed);
-                }
                 if k == probe {
-                    PROBE_HIT.store(true, Relaxed);
-                    PROBE_INDEX.store(item.index, Relaxed);
-                    PROBE_VALUE.store(item.value, Relaxed);
+                    hit = true;
+                    pi = item.index;
+                    pv = item.value;
                 }
                 k = k.wrapping_add(1);
-                ITEMS.fetch_add(1, Relaxed);
             }
+            ITEMS.store(k as u32, Relaxed);
+            PROBE_HIT.store(hit, Relaxed);
+            PROBE_INDEX.store(pi, Relaxed);
+            PROBE_VALUE.store(pv, Relaxed);
         }
         Err(e) => record_err(e),
     }
@@ -262,9 +256,8 @@ fn read_bits_response<const MAXQ: u16, const L: usize>(fc: u8) {
     check_outcome(&mut req, res, want);
     if want == RefReply::Data {
         assert!(ITEMS.load(Relaxed) == count as u32, "[C04] exactly `count` values are returned");
-        assert!(V_INDEX.load(Relaxed) == start && SEQ_OK.load(Relaxed), "[C04] values are indexed upward from the requested start address");
         if probe < count {
-            assert!(PROBE_HIT.load(Relaxed) && PROBE_INDEX.load(Relaxed) == start + probe, "[C04] value address");
+            assert!(PROBE_HIT.load(Relaxed) && PROBE_INDEX.load(Relaxed) == start + probe, "[C04] values are indexed upward from the requested start address");
             let bit = (reply[2 + (probe / 8) as usize] >> (probe % 8)) & 1;
             assert!(PROBE_VALUE.load(Relaxed) == bit as u16, "[C04] returned bits are exactly those encoded in the reply (LSB first)");
         }
@@ -336,9 +329,8 @@ fn read_regs_response<const MAXQ: u16, const L: usize>(fc: u8) {
     check_outcome(&mut req, res, want);
     if want == RefReply::Data {
         assert!(ITEMS.load(Relaxed) == count as u32, "[C04] exactly `count` values are returned");
-        assert!(V_INDEX.load(Relaxed) == start && SEQ_OK.load(Relaxed), "[C04] values are indexed upward from the requested start address");
         if probe < count {
-            assert!(PROBE_HIT.load(Relaxed) && PROBE_INDEX.load(Relaxed) == start + probe, "[C04] value address");
+            assert!(PROBE_HIT.load(Relaxed) && PROBE_INDEX.load(Relaxed) == start + probe, "[C04] values are indexed upward from the requested start address");
             let v = be16(reply[2 + 2 * probe as usize], reply[3 + 2 * probe as usize]);
             assert!(PROBE_VALUE.load(Relaxed) == v, "[C04] returned registers are exactly those encoded in the reply (big endian)");
         }
